@@ -56,21 +56,34 @@ class LPM:
                 and n.func.attr == method and self.is_q(n.func.value)]
 
     def _branches(self):
-        """list of (label, stmts) for the top-level if/elif chain on `backend`"""
+        """list of (label, stmts, node) for the top-level if/elif chain on `backend`; which arm of an `if`
+        holds the adapters and which continues the chain is decided by content, not by position"""
         out = []
-        chain = [n for n in self.fn.body if isinstance(n, ast.If) and any(
-            A.is_name(x, 'backend') for x in ast.walk(n.test)) and any(isinstance(s, A.FUNC_TYPES) for s in n.body)]
+        chain = [n for n in self.fn.body if isinstance(n, ast.If) and any(A.is_name(x, 'backend') for x in ast.walk(n.test))
+                 and any(isinstance(s, A.FUNC_TYPES) for s in ast.walk(n))]
         if not chain:
             raise AnalysisError('undecidable shape: backend dispatch chain not found')
-        node = chain[0]
-        while True:
-            label = A.short(node.test, 60)
-            out.append((label, node.body, node))
-            if len(node.orelse) == 1 and isinstance(node.orelse[0], ast.If):
-                node = node.orelse[0]
-            else:
-                self.else_body = node.orelse
-                break
+        self.else_body = []
+
+        def has_adapters(stmts):
+            return any(isinstance(s, A.FUNC_TYPES) for s in stmts)
+
+        def walk(node):
+            t, neg = A.strip_not(node.test)
+            arms = [(A.short(t, 60) if not neg else 'not (%s)' % A.short(t, 55), node.body),
+                    ('else of ' + A.short(node.test, 50), node.orelse)]
+            for i, (label, stmts) in enumerate(arms):
+                if has_adapters(stmts):
+                    lab = A.short(t, 60) if (i == 0) != neg else 'not (%s)' % A.short(t, 55)
+                    if (i == 1) and not neg:
+                        lab = 'else of ' + A.short(t, 50)
+                    out.append((lab, stmts, node))
+                elif len(stmts) == 1 and isinstance(stmts[0], ast.If) and any(
+                        A.is_name(x, 'backend') for x in ast.walk(stmts[0].test)):
+                    walk(stmts[0])
+                else:
+                    self.else_body = list(self.else_body) + list(stmts)
+        walk(chain[0])
         return out
 
     def adapters(self, stmts):
